@@ -81,6 +81,8 @@ def classify_cmp(cmpres, chain_texts, i):
                            ('Link', 'inherited_fields')} and any(f == 'default' for _, f in items) \
             and cmpres.get('own_diff') == '' and any('overloaded' in t for t in chain_texts[:i + 1]):
         return 'C02-drop-overloaded-default'
+    if items and items <= {('Link', 'owned'), ('Property', 'owned')} and 'drop owned' in (cmpres.get('own_diff') or '').lower():
+        return 'C02-move-to-parent-reowned'
     if isinstance(cmpres, dict) and 'drop extending' in (cmpres.get('own_diff') or '').lower():
         return 'C02-drop-extending-renamed-base'
     return None
